@@ -95,7 +95,7 @@ func (l *enumValueLoader) commentEnd(lex lexeme.LexEvent) {
 
 	if l.lastIdx < l.enumConstraint.Len() {
 		// A comment before the first value has no value to be attached to.
-		l.enumConstraint.SetComment(l.lastIdx, lex.Value().String())
+		l.enumConstraint.SetComment(l.lastIdx, lex.Value().TrimSpaces().String())
 	}
 	l.stateFunc = l.annotationEnd
 }
